@@ -9,6 +9,7 @@ from typing import Any, Dict, List, Optional, Tuple
 from .. import wire
 from ..explore import Stats, bfs_histories, digest
 from ..models.cache_model import CacheModel, ident
+from ..introspect import guarded
 from ..world import World
 
 IN, FL = 1, 0x8001
@@ -266,12 +267,12 @@ class Search:
                 if last and not (kind == "d" and exp["contradictory"]):
                     self.check_lookups(problems, cache, model, w.now_ms)
             now = w.now_ms
-            canon = (
+            canon = guarded(lambda: (
                 [(k, [(lib_full(a, now), lib_full(b, now)) for a, b in st.items()]) for k, st in sorted(cache.cache.items())],
                 [(k, [(lib_full(a, now), lib_full(b, now)) for a, b in st.items()])
                  for k, st in sorted(cache.service_cache.items())],
                 (now - t0) % 10000,
-            )
+            ), lambda: ("history", tuple(hist)))
             excs = w.exceptions()
             if excs:
                 problems.append(f"exception in the event loop: {excs[0]}")
